@@ -81,6 +81,8 @@ namespace gen
         std::string name() const
         {
             std::string r = kindName(kind);
+            if ((kind == SE2 || kind == SE3) && w.size() == 2 && (w[0] != 1 || w[1] != (kind == SE2 ? 0.5 : 1)))
+                r += vf::fmt("(w=%g,%g)", w[0], w[1]);
             if (kind == RV)
                 r += std::to_string(lo.size()) + "[" + boundsClass + "]";
             else if (kind == DISCRETE)
@@ -222,6 +224,18 @@ namespace gen
         return d.compoundLayout() || (d.kind == WRAPPER && isCompoundLike(d.subs[0]));
     }
 
+    // SE(2) / SE(3) are compounds whose component weights the public setSubspaceWeight() may change (also after lock()); the weights the
+    // constructor sets (1, 0.5 / 1, 1) are only the default. One byte decides (zero byte: untouched).
+    inline void reweightBuiltin(vf::Src &s, ob::CompoundStateSpace &cs)
+    {
+        if (!s.chance(56))
+            return;
+        static const double ws[] = {0.25, 3, 7.5, 1e-3, 1, 0};
+        for (unsigned i = 0; i < cs.getSubspaceCount(); ++i)
+            if (s.flag())
+                cs.setSubspaceWeight(i, ws[s.weighted({3, 3, 2, 2, 2, 1})]);
+    }
+
     inline Desc genSpace(vf::Src &s, const SpaceOpts &o, int depth = 0)
     {
         Desc d;
@@ -297,6 +311,8 @@ namespace gen
                 else
                     sp = std::make_shared<ob::ReedsSheppStateSpace>(d.p1);
                 sp->setBounds(toBounds(b));
+                if (k == 3)
+                    reweightBuiltin(s, *sp);
                 d.space = sp;
                 d.boundsClass = b.boundsClass;
                 describeBuiltin(d);
@@ -316,6 +332,7 @@ namespace gen
                 }
                 auto sp = std::make_shared<ob::SE3StateSpace>();
                 sp->setBounds(toBounds(b));
+                reweightBuiltin(s, *sp);
                 d.space = sp;
                 describeBuiltin(d);
                 d.subs[0].boundsClass = b.boundsClass;
